@@ -1,8 +1,8 @@
 package store
 
 import (
-	"database/sql"
 	"context"
+	"database/sql"
 	"fmt"
 	"math/rand"
 
@@ -27,14 +27,14 @@ type l1Kind struct {
 	ref  *names.AppendTree // reference L1 info tree of the surviving history
 	hist []l1block
 	// rollup exit tree: reference state after each surviving effective update
-	uref      *names.UpdTree
-	ustates   []ustate // effective updates of the surviving history, in order
-	atoms     map[int]*l1leaf
-	exitRoots map[int]common.Hash // exit-root atom -> hash (atom 0 = zero hash)
-	seenRoots []common.Hash
+	uref       *names.UpdTree
+	ustates    []ustate // effective updates of the surviving history, in order
+	atoms      map[int]*l1leaf
+	exitRoots  map[int]common.Hash // exit-root atom -> hash (atom 0 = zero hash)
+	seenRoots  []common.Hash
 	seenURoots []common.Hash
-	maxLeaves int
-	lastRec   l1block
+	maxLeaves  int
+	lastRec    l1block
 }
 
 type l1leaf struct {
@@ -566,9 +566,9 @@ func (k *l1Kind) hashPools() (live, dead []common.Hash) {
 
 var l1Deny = map[string]bool{"Start": true}
 
-func (k *l1Kind) kindSeed() int64     { return k.seed }
-func (k *l1Kind) setSeed(s int64)     { k.seed = s }
-func (k *l1Kind) workDir() string     { return k.dir }
+func (k *l1Kind) kindSeed() int64 { return k.seed }
+func (k *l1Kind) setSeed(s int64) { k.seed = s }
+func (k *l1Kind) workDir() string { return k.dir }
 
 // prepare records what process would have recorded about the block, without processing it (the block is processed by a child process).
 func (k *l1Kind) prepare(op Op) {
